@@ -434,6 +434,10 @@ func builtinSource(c *Case) string {
 		return fmt.Sprintf("var [...r0] = %s; undefined", it)
 	case "promiseall":
 		return fmt.Sprintf("var k=0; var r0=Promise.resolve; Promise.resolve=function(v){ if (k++===%d) throw %d; return r0.call(this,v); }; var out; try { Promise.all(%s).then(function(){ out=[0] }, function(e){ out=[1,e] }); } finally { Promise.resolve=r0; } undefined", sj, c.SV, it)
+	case "yieldstar_catch":
+		return fmt.Sprintf("function* g(){ try { yield* %s; } catch (e) { ev(900); throw e; } } var gi=g(); for (var i=0;i<%d;i++) { var r=gi.next(); if (r.done) break; } if (!r || !r.done) gi.return(7); undefined", it, c.Want)
+	case "genforof_catch":
+		return fmt.Sprintf("function* g(){ try { for (var x of %s) { yield x; } } catch (e) { ev(900); throw e; } } var gi=g(); for (var i=0;i<%d;i++) { var r=gi.next(); if (r.done) break; } if (!r || !r.done) gi.return(7); undefined", it, c.Want)
 	case "yieldstar":
 		// the delegating generator is closed by return() after `want` values
 		return fmt.Sprintf("function* g(){ yield* %s; } var gi=g(); for (var i=0;i<%d;i++) { var r=gi.next(); if (r.done) break; } if (!r || !r.done) gi.return(7); undefined", it, c.Want)
@@ -523,6 +527,9 @@ func runCase(c *Case) vh.Record {
 			st = fmt.Sprintf("(Some (%d,%d))", c.SJ-1, c.SV)
 		}
 		term = fmt.Sprintf("CBuiltin %s %s %s %s %s", coqIter(c.It), want, st, vh.CoqList(o.events), o.out)
+		if c.Surface == "yieldstar_catch" || c.Surface == "genforof_catch" {
+			term = fmt.Sprintf("CGenCatch %s %d %s %s", coqIter(c.It), c.Want, vh.CoqList(o.events), o.out)
+		}
 	default:
 		panic("unknown case kind")
 	}
